@@ -16,6 +16,7 @@ import (
 	"github.com/AdguardTeam/urlfilter/proxy"
 
 	"verifharness/internal/core"
+	"verifharness/internal/util"
 )
 
 // C20: proxy HTML injection inserts one tag and preserves every original byte.
@@ -267,7 +268,7 @@ func c20Run(c *core.Ctx, idx int) {
 			fn := filepath.Join(dir, "filter.txt")
 			content := []string{"", "! nothing but a comment\n", "##.generic-banner\n", "example.org##.banner\nexample.org#@#.generic-banner\n", "other.example.net##.x\n||ads.example^\n",
 				"||example.org^$elemhide\n##.generic-banner\n", "sub.example.org,xn--bcher-kva.example##.y\n@@||example.org^$document\n"}[c.Rng.Intn(7)]
-			if os.WriteFile(fn, []byte(content), 0o644) == nil {
+			if os.WriteFile(fn, []byte(util.ChopEOL(content)), 0o644) == nil {
 				if s2, serr := proxy.VerifNewServerWithFilters(map[int]string{1: fn}); serr == nil {
 					srv = s2
 					c.Event("cases_on_a_server_with_a_filtering_engine", 1)
